@@ -419,7 +419,15 @@ func (g *gen) stmt(m *methodDesc, depth int) stmt {
 	}
 	if len(g.strF) > 0 {
 		choices = append(choices, func() stmt {
-			return stmt{op: "addassign", field: g.pick(g.strF), e: g.expr(m, "string", 1), bare: bare}
+			// the appended string is a literal or a parameter: a field or a method result on the
+			// right-hand side would double the string on every call (output of many megabytes)
+			var e *expr = &expr{op: "str", val: fmt.Sprintf("%q", []string{"a", "bc", "x y"}[r.Intn(3)]), typ: "string"}
+			for _, p := range m.params {
+				if p.typ == "string" && r.Bool() {
+					e = &expr{op: "param", val: p.name, typ: "string"}
+				}
+			}
+			return stmt{op: "addassign", field: g.pick(g.strF), e: e, bare: bare}
 		})
 	}
 	if len(g.sliceI) > 0 {
